@@ -445,12 +445,26 @@ def history_rule(ctx):
             bad = "the HistoryDamage branch does not take the maximum of the old and the new damage"
         else:
             i, name = bounded
+            # one operand of the maximum is the damage at the START of the load step: a name bound to self.damage by a
+            # statement of Solve that is not inside the staggered loop
+            step_start = {st.targets[0].id for st in fsolve.node.body if isinstance(st, ast.Assign) and isinstance(st.targets[0], ast.Name) and norm_text(st.value) in ("self.damage", "self.damage.copy()")}
+            mx = branch.body[i].value
+            operands = set()
+            for a in mx.args:
+                for x in ast.walk(a):
+                    if isinstance(x, ast.Name):
+                        operands.add(x.id)
+            for st in branch.body[:i]:
+                if isinstance(st, ast.Assign) and isinstance(st.targets[0], ast.Subscript) and isinstance(st.targets[0].value, ast.Name) and st.targets[0].value.id in operands:
+                    operands |= {x.id for x in ast.walk(st.value) if isinstance(x, ast.Name)}
+            if not (operands & step_start):
+                bad = f"the HistoryDamage bound takes the maximum over {sorted(operands - {name})}, none of which is the damage at the start of the load step (`<name> = self.damage` before the staggered loop): an intermediate iterate can lie below the saved damage, so the saved damage decreases on unloading when a step takes several iterations"
 
             def stores(st):
                 return (isinstance(st, ast.Expr) and isinstance(st.value, ast.Call) and isinstance(st.value.func, ast.Attribute) and st.value.func.attr == "_Set_solutions"
                         and len(st.value.args) >= 2 and "damage" in norm_text(loc_s.resolve(st.value.args[0])) and isinstance(st.value.args[1], ast.Name) and st.value.args[1].id == name)
 
-            if not must_pass(branch.body[i + 1:], stores):
+            if bad is None and not must_pass(branch.body[i + 1:], stores):
                 bad = f"the HistoryDamage branch bounds `{name}` by the old damage and returns it, but never stores it (`self._Set_solutions(<damage>, {name})`): self.damage - what Save_Iter records and the next step starts from - is still the unbounded solver output, so the saved damage decreases on unloading"
     if bad:
         r.fail(fsolve.qualname, "damage-bound-not-stored", fsolve.file, (branch or fsolve.node).lineno, "PhaseField.Solve", bad)
